@@ -69,8 +69,12 @@ def fill_module(rng, mod, earlier):
     rng.shuffle(cands)
     same_pkg = [m for m in cands if m['name'].rpartition('.')[0] == mod['name'].rpartition('.')[0]
                 and '.' in mod['name']]
+    parent_pkg = mod['name'].rpartition('.')[0].rpartition('.')[0]
+    up_pkg = [m for m in cands if parent_pkg and m['name'].rpartition('.')[0] == parent_pkg]
     for m in cands[:rng.choice((0, 1, 1, 2, 3))]:
         style = rng.choice(('import', 'from', 'star', 'from', 'fromas', 'rel' if m in same_pkg else 'import'))
+        if m in up_pkg and rng.random() < 0.7:
+            style = "rel2"
         ms = short(m['name'])
         if style == 'import':
             if '.' in m['name'] and rng.random() < 0.5:
@@ -84,10 +88,10 @@ def fill_module(rng, mod, earlier):
                 avail.append((prefix + k, 'class'))
             for f in m['iface']['funcs']:
                 avail.append((prefix + f, 'func'))
-        elif style in ('from', 'fromas', 'rel'):
+        elif style in ('from', 'fromas', 'rel', 'rel2'):
             pool = m['iface']['classes'] + m['iface']['funcs'] + m['iface']['insts'] + m['iface']['multis']
             picks = rng.sample(pool, min(len(pool), rng.choice((1, 1, 2))))
-            target = m['name'] if style != 'rel' else '.' + ms
+            target = m['name'] if style not in ('rel', 'rel2') else ('.' if style == 'rel' else '..') + ms
             for p in picks:
                 asname = ('r_' + p) if style == 'fromas' else None
                 items.append(['from', target, p, asname])
@@ -289,6 +293,18 @@ def write_project(root, spec, mtime_ns=None):
 
 # ---------------------------------------------------------------- exported names (approximate, for request generation)
 
+def _absolute(modname, target):
+    """Resolve a relative import target ('.x', '..x', '..') seen from module `modname`."""
+    if not target.startswith('.'):
+        return target
+    level = len(target) - len(target.lstrip('.'))
+    base = modname.split('.')[:-1]
+    if level > 1:
+        base = base[:len(base) - (level - 1)]
+    rest = target.lstrip('.')
+    return '.'.join(base + ([rest] if rest else []))
+
+
 def origins(spec):
     """module name -> {exported name: module in which the name is really defined}."""
     out = {}
@@ -297,9 +313,7 @@ def origins(spec):
         for it in m['items']:
             k = it[0]
             if k == 'from':
-                tgt = it[1]
-                if tgt.startswith('.'):
-                    tgt = m['name'].rpartition('.')[0] + tgt
+                tgt = _absolute(m['name'], it[1])
                 if it[2].startswith('zqattr_'):
                     # an attribute of a package that a sub-module of the same name may take over
                     o[it[3] or it[2]] = tgt + '.' + it[2]
@@ -343,9 +357,7 @@ def exports(spec):
             elif k == 'tryfrom':
                 add(it[2], 'module')
             elif k == 'from':
-                tgt = it[1]
-                if tgt.startswith('.'):
-                    tgt = m['name'].rpartition('.')[0] + tgt
+                tgt = _absolute(m['name'], it[1])
                 kind = dict(table.get(tgt, [])).get(it[2], 'var')
                 add(it[3] or it[2], kind)
             elif k == 'star':
@@ -409,15 +421,24 @@ def gen_request(rng, spec, kinds=('assist', 'location', 'lint'), uid=None, targe
     if via == 'rel' and not pkg:
         via = 'from'
     if via == 'rel':
-        filename = os.path.join(*(pkg.split('.') + ['zqmain_rel.py']))
+        # the buffer lives in the target's package or in a sub-package of it (then the import climbs with '..')
+        below = sorted(x['name'] for x in spec['modules'] if x.get('init') and x['name'].startswith(pkg + '.'))
+        home = rng.choice([pkg] + below) if below and rng.random() < 0.6 else pkg
+        dots = '.' * (1 + home.count('.') - pkg.count('.'))
+        filename = os.path.join(*(home.split('.') + ['zqmain_rel.py']))
         if rng.random() < 0.5:
-            head.append('from . import %s' % short(mname))
+            head.append('from %s import %s' % (dots, short(mname)))
             ref = short(mname) + '.' + name
             modref = short(mname)
         else:
-            head.append('from .%s import %s' % (short(mname), name))
+            head.append('from %s%s import %s' % (dots, short(mname), name))
             ref = name
             modref = None
+        if home != pkg and rng.random() < 0.5:
+            # and a second relative import at another level in the same buffer
+            sib = [x['name'] for x in spec['modules'] if not x.get('init') and x['name'].rpartition('.')[0] == home]
+            if sib:
+                head.insert(len(head) - 1, 'from . import %s' % short(rng.choice(sib)))
     elif via == 'import':
         head.append('import %s' % mname)
         ref = mname + '.' + name
@@ -553,5 +574,32 @@ def cycle_requests(rng, spec):
                 n = rng.choice((1, 2, 3))
                 src = 'import %s\nzr = %s.%s()%s.\n' % (mn, mn, it[1], '.nxt()' * n)
                 out.append({'kind': 'assist', 'source': src, 'position': [2, len(src.split('\n')[1])], 'file': 'zqmain.py'})
+    rng.shuffle(out)
+    return out
+
+
+def relative_requests(rng, spec):
+    """Requests issued from one and the same buffer inside the deepest package, importing relatively at different
+    levels (from . / from .. / from ...): what one level resolves to must not depend on which was asked before."""
+    pkgs = sorted((m['name'] for m in spec['modules'] if m.get('init')), key=lambda n: -n.count('.'))
+    out = []
+    if not pkgs:
+        return out
+    home = pkgs[0]
+    fname = os.path.join(*(home.split('.') + ['zqmain_rel.py']))
+    parts = home.split('.')
+    for up in range(len(parts)):
+        pkg = '.'.join(parts[:len(parts) - up])
+        dots = '.' * (up + 1)
+        mods = [m for m in spec['modules'] if not m.get('init') and m['name'].rpartition('.')[0] == pkg]
+        for m in mods[:2]:
+            sm = short(m['name'])
+            src = 'from %s import %s\n%s.\n' % (dots, sm, sm)
+            out.append({'kind': 'assist', 'source': src, 'position': [2, len(sm) + 1], 'file': fname})
+            names = m['iface']['classes'] + m['iface']['funcs']
+            if names:
+                n = rng.choice(names)
+                src = 'from %s%s import %s\nzr = %s\n' % (dots, sm, n, n)
+                out.append({'kind': 'location', 'source': src, 'position': [2, 5 + len(n)], 'file': fname})
     rng.shuffle(out)
     return out
